@@ -135,7 +135,7 @@ func ZZ_C47_%[1]s_NoModulo() {
 	bigs := []struct {
 		Name string
 		Size int
-	}{{"UInt128", 16}, {"UInt256", 32}, {"Word128", 16}, {"Word256", 32}}
+	}{{"UInt128", 16}, {"Word128", 16}} // UInt256/Word256: bit-vector queries of width 288 over 3 draws did not finish in 2 h: outside
 	for _, t := range bigs {
 		w := 8*t.Size + 32
 		tierAttr := ""
